@@ -192,6 +192,23 @@ func (r *Replayer) attachNotify(variant int) *NotifyRig {
 	return rig
 }
 
+// waitAll waits for every recorder, the blocked one included (after its release).
+func (rig *NotifyRig) waitAll(want int, d time.Duration) {
+	deadline := time.Now().Add(d)
+	for time.Now().Before(deadline) {
+		ok := true
+		for _, rc := range rig.recs {
+			if rc.count() < want {
+				ok = false
+			}
+		}
+		if ok {
+			return
+		}
+		time.Sleep(200 * time.Microsecond)
+	}
+}
+
 func (rig *NotifyRig) attachRealWebsocket(s *Stack, rec *recorder) error {
 	ws, err := websocket.NewServer(&s.log, s.Svc, false)
 	if err != nil {
@@ -235,13 +252,15 @@ func (rig *NotifyRig) attachRealWebsocket(s *Stack, rec *recorder) error {
 	return nil
 }
 
-// waitCounts waits until every recorder has at least want events (or the deadline passes).
+// waitCounts waits until every recorder has at least want events (or the deadline passes).  The channel that blocks for
+// ever is not waited for: whether its deliveries are started one by one or all at once is the implementation's business
+// (C11 asks that ingestion and the OTHER channels do not wait for it, and that it gets every event once - checked after release).
 func (rig *NotifyRig) waitCounts(want int, d time.Duration) {
 	deadline := time.Now().Add(d)
 	for time.Now().Before(deadline) {
 		ok := true
-		for _, rc := range rig.recs {
-			if rc.count() < want {
+		for name, rc := range rig.recs {
+			if name != "bad-block" && rc.count() < want {
 				ok = false
 			}
 		}
